@@ -191,6 +191,8 @@ pub fn emit(text: &str, dir: &Path) -> Result<Vec<LwDiag>, Vec<LwDiag>> {
     })
 }
 
+pub static LAST_PANIC_GLOBAL: std::sync::Mutex<Option<String>> = std::sync::Mutex::new(None);
+
 thread_local! {
     static LAST_PANIC: std::cell::RefCell<Option<String>> = const { std::cell::RefCell::new(None) };
 }
@@ -210,6 +212,9 @@ pub fn quiet_panics() {
                 "<non-string panic>".to_string()
             };
             let loc = info.location().map_or(String::new(), |l| format!(" at {}:{}", l.file(), l.line()));
+            if let Ok(mut g) = LAST_PANIC_GLOBAL.lock() {
+                *g = Some(format!("{msg}{loc}"));
+            }
             LAST_PANIC.with(|p| *p.borrow_mut() = Some(format!("{msg}{loc}")));
         }));
     });
